@@ -700,6 +700,21 @@ def bool_transfer(body, bb, known, pins=None):
                     val = ("v", vi)                 # Ok(0) -> Continue(0), Err(1) -> Break(1)
                 elif tn == "core::option::Option":
                     val = ("v", 1 - vi)             # None(0) -> Break(1), Some(1) -> Continue(0)
+        elif callee(t) in ("core::slice::<impl [T]>::len", "core::slice::<impl [T]>::is_empty") and len(t["args"]) == 1:
+            # length of a slice whose length is pinned for a case split: the argument is `&*s` built in this block
+            a_ = op_local(t["args"][0])
+            tgt = None
+            for s_ in reversed(blk["stmts"]):
+                if s_.get("s") == "assign" and s_["p"]["l"] == a_ and not s_["p"]["p"]:
+                    rv_ = s_["rv"]
+                    if rv_["r"] == "ref" and all(e_ == "deref" for e_ in rv_["p"]["p"]):
+                        tgt = rv_["p"]["l"]
+                    break
+            if tgt is None and a_ is not None and ("len", a_) in known:
+                tgt = a_
+            if tgt is not None and ("len", tgt) in known:
+                n_ = known[("len", tgt)][1]
+                val = ("i", n_) if callee(t).endswith("::len") else ("b", n_ == 0)
         elif callee(t).endswith("FromResidual::from_residual"):
             # `?` failing: the function's own Result/Option is rebuilt from the residual - always Err / None
             a0 = ((t.get("f") or {}).get("a") or [None])[0]
